@@ -1,6 +1,6 @@
 (* C20 property theorems: statements only, each closed by `exact`, with Print Assumptions. *)
 From Coq Require Import ZArith QArith List Bool Lia Lqa.
-From QE Require Import Base.Num C20.Model C20.Proofs C20.Proofs2.
+From QE Require Import Base.Num C20.Model C20.Proofs C20.Proofs2 C20.Proofs3.
 Import ListNotations.
 Open Scope Z_scope.
 
@@ -141,6 +141,62 @@ Theorem C20_logit_range : forall (T : Type) (N : Num T) (ns : list Z) (cdfs : li
 Proof. intros T N. exact (@logit_range T N). Qed.
 Print Assumptions C20_logit_range.
 
+(* ---- play() and time_series are the same fold: for ANY dynamics (step function) and any list of per-period draws,
+   running the first k periods (play with num_reps = k / a player_ind_seq of length k) ends in row k of the series *)
+Theorem C20_play_is_row : forall (St D : Type) (step : St -> D -> option St) ds s h f k,
+  run step s ds = Some (h, f) -> (k <= length ds)%nat ->
+  exists hk fk, run step s (firstn k ds) = Some (hk, fk) /\ nth_error (h ++ [f]) k = Some fk.
+Proof. intros St D. exact (@play_is_row St D). Qed.
+Print Assumptions C20_play_is_row.
+
+(* ---- N-player fictitious play (payoff arrays of shape (n_i, n_{i+1}, ..., n_{i-1}) as nested lists, payoff vector by
+   contracting the last axis with each opponent's belief, as Player.payoff_vector does), exact arithmetic: along every
+   history all beliefs stay probability vectors of the right lengths and each moves by the documented step towards a
+   best response (up to tol) to the payoff vector computed from the OLD beliefs *)
+Theorem C20_nfp_inv : forall ns arrays gain tol xs t0 periods h f,
+  game_ok ns arrays -> gain_ok gain -> beliefs_ok ns xs -> 0 <= t0 ->
+  nfp_series arrays gain tol xs t0 periods = Some (h, f) ->
+  length h = periods /\ nth_error (h ++ [f]) 0 = Some (xs, t0) /\
+  Forall (fun st => Forall2 (fun x n => length x = n /\ probvec x) (fst st) ns /\ 0 <= snd st) (h ++ [f]) /\
+  forall i st st', nth_error (h ++ [f]) i = Some st -> nth_error (h ++ [f]) (S i) = Some st' ->
+    let '(ys, t) := st in
+    let '(ys', t') := st' in
+    t' = t + 1 /\ length ys' = length ys /\
+    forall j x x' arr, nth_error ys j = Some x -> nth_error ys' j = Some x' -> nth_error arrays j = Some arr ->
+      exists b, best_response (payoff_vector_n arr ys j) tol = Some b /\
+                is_best_response (payoff_vector_n arr ys j) tol b /\
+                update_rel x x' b (step_size gain t).
+Proof. exact nfp_inv. Qed.
+Print Assumptions C20_nfp_inv.
+
+(* ---- LogitDynamics from the payoffs: the cumulative choice weights are cumsum(exp((payoffs - max) * beta)) with exp a
+   parameter.  Any arithmetic: if the totals are admissible (scaling fact), every action stays in its action set along
+   every history; over Q every POSITIVE function in place of exp makes all totals admissible, so nothing is assumed. *)
+Theorem C20_logit_full_range : forall (T : Type) (N : Num T) (expf : T -> T) (scal_ok : T -> Prop),
+  (forall c u, scal_ok c -> unitl u -> nleb c (nmul u c) = false) ->
+  forall (ns : list Z) (beta : T) (pays : list (list (list Z * list T))),
+  (forall i tbl key pv, nth_error pays i = Some tbl -> lookup tbl key = Some pv ->
+     pv <> [] /\ Some (zlen pv) = nth_error ns i /\ scal_ok (last (logit_cdf expf beta pv) nzero)) ->
+  forall acts ds h f,
+    Forall2 (fun a n => 0 <= a < n) acts ns -> Forall (fun d => unitl (snd d)) ds ->
+    run (logit_step_full expf beta pays) acts ds = Some (h, f) ->
+    length h = length ds /\ nth_error (h ++ [f]) 0 = Some acts /\
+    Forall (fun acts' => Forall2 (fun a n => 0 <= a < n) acts' ns) (h ++ [f]).
+Proof. intros T N. exact (@logit_full_range T N). Qed.
+Print Assumptions C20_logit_full_range.
+
+Theorem C20_logit_full_range_Q : forall (expq : Q -> Q), (forall x, (0 < expq x)%Q) ->
+  forall (ns : list Z) (beta : Q) (pays : list (list (list Z * list Q))),
+  (forall i tbl key pv, nth_error pays i = Some tbl -> lookup tbl key = Some pv ->
+     pv <> [] /\ Some (zlen pv) = nth_error ns i) ->
+  forall acts ds h f,
+    Forall2 (fun a n => 0 <= a < n) acts ns -> Forall (fun d => unitl (snd d)) ds ->
+    run (logit_step_full expq beta pays) acts ds = Some (h, f) ->
+    length h = length ds /\ nth_error (h ++ [f]) 0 = Some acts /\
+    Forall (fun acts' => Forall2 (fun a n => 0 <= a < n) acts' ns) (h ++ [f]).
+Proof. exact logit_full_range_Q. Qed.
+Print Assumptions C20_logit_full_range_Q.
+
 (* ---- the hypotheses are satisfiable by concrete non-trivial objects *)
 Definition A_ex : list (list Q) := [[0; 3; 1]; [3; 0; 1]; [2; 2; 2]]%Q.
 Example ex_brd : valid_dist 5 3 [2; 0; 3] /\ zlen A_ex = 3 /\
@@ -195,3 +251,14 @@ Example ex_localint :
   localint_series [[2; 0]; [0; 1]]%Q [[0; 1; 1]; [1; 0; 0]; [2; 0; 0]]%Q 0 [0; 1; 1] [None; Some 1; None]
     = Some ([[0; 1; 1]; [1; 0; 0]; [1; 1; 0]], [0; 1; 1]).
 Proof. split; [split; [reflexivity|repeat constructor; lia]|vm_compute; reflexivity]. Qed.
+
+(* a 3-player game with 2 actions each: shapes, beliefs, and a run of the N-player model *)
+Example ex_nfp : game_ok [2; 2; 2]%nat [arr3; arr3; arr3] /\
+  beliefs_ok [2; 2; 2]%nat [[1; 0]; [1#2; 1#2]; [0; 1]]%Q /\
+  option_map snd (nfp_series [arr3; arr3; arr3] None (1 # 100000000) [[1; 0]; [1#2; 1#2]; [0; 1]]%Q 0 2)
+    = Some ([[2#3; 1#3]; [1#6; 5#6]; [1#3; 2#3]]%Q, 2).
+Proof.
+  split; [exact arr3_game|split].
+  - unfold beliefs_ok, probvec. repeat constructor; try reflexivity; try (vm_compute; discriminate).
+  - vm_compute. reflexivity.
+Qed.
